@@ -3,6 +3,7 @@ package checks
 import (
 	"fmt"
 	"os"
+	"time"
 	"sort"
 	"strings"
 
@@ -310,6 +311,7 @@ func copyFiles(o *BatchOutcome) map[string]string {
 // minimizeCrash delta-debugs a crashing batch: halves while one half still crashes, then removes chains one at a
 // time (bounded), re-running the analyzer each time.
 func minimizeCrash(run *core.Run, chains []gen.Chain, opts ChainOpts, tag string) []gen.Chain {
+	opts.Watchdog = 5 * time.Minute
 	crashes := func(cs []gen.Chain, t string) bool {
 		if len(cs) == 0 {
 			return false
